@@ -1,5 +1,5 @@
 """property -> rules registry (claimed properties only)"""
-from . import rules_state, rules_arith, rules_except, rules_guard, rules_slice, rules_types, rules_dep, rules_order, rules_cache
+from . import rules_state, rules_arith, rules_except, rules_guard, rules_slice, rules_types, rules_dep, rules_order, rules_cache, rules_assume
 
 RULES = {
     "P1": rules_state.rule_P1,
@@ -22,11 +22,26 @@ RULES = {
     "K1": rules_cache.rule_K1,
     "K2": rules_cache.rule_K2,
     "K3": rules_cache.rule_K3,
+    "A1": rules_assume.rule_A1,
+    "A1b": rules_assume.rule_A1b,
+    "Z1": rules_assume.rule_Z1,
 }
 
 SELFTESTS = {"T1": rules_types.selftest_T1}
 
 PROPS = {
+    "C02": {
+        "id": "C02",
+        "title": "Inverse transforms invert the forward transforms",
+        "rules": ["A1b", "A1"],
+        "clause": "every even n accepted by irfft/IfftPlanR satisfies what the twiddle-table helper believes about n, and odd n is "
+                  "rejected by exception before any table is sized or indexed (member initialisers included)",
+        "not_decided": "the inversion identities ifft(fft(x)) = x, irfft(rfft(x)) = x as numerics; everything about stft/istft",
+        "explanation": "A1 substitutes the actual arguments into each assert/DSPLIB_ASSUME of the ifft helpers and requires a live "
+                       "check at the public call site to entail it (e % k == 0 entails e % k' == 0 iff k' | k, interval "
+                       "containment); A1b walks IfftPlanR's constructor CFG, which contains the member initialisers in "
+                       "declaration order, and requires the parity check to precede every call that receives n.",
+    },
     "C03": {
         "id": "C03",
         "title": "Element-wise array arithmetic, type promotion and value semantics",
@@ -57,11 +72,13 @@ PROPS = {
     "C05": {
         "id": "C05",
         "title": "No call corrupts memory or hangs: misuse is reported by exception",
-        "rules": ["G1", "G2", "G3", "G5", "E1"],
+        "rules": ["G1", "G2", "G3", "G5", "E1", "A1", "Z1"],
         "clause": "guard completeness (mechanisms 1-3 of the anchors): every plan solve() checks the input length with a live "
                   "check before mixing it with plan tables; every foreign-bound subscript and caller-supplied index in a public "
                   "function is dominated by a live relating guard; slices are range-checked at creation and count-checked at "
-                  "assignment; no noexcept function can reach a library throw",
+                  "assignment; no noexcept function can reach a library throw; beliefs (DSPLIB_ASSUME/assert) of internal helpers "
+                  "are entailed by live checks of their public callers where the chain is modelled; no integer division by "
+                  "never-initialised member state",
         "not_decided": "value-range safety of index arithmetic inside kernels (twiddle indices, polyphase offsets), termination "
                        "and complexity (except the C15 clause)",
         "explanation": "G1 enumerates every solve() of every plan class with delegation closure over the call graph (virtual calls "
